@@ -302,60 +302,6 @@ func c10Focused(all []seeds.Seed, rep *core.Report) []c10Scenario {
 	return sc
 }
 
-// c10Diverse picks n certificates greedily by the number of new (lint, status) pairs they reach under reg.
-func c10Diverse(reg lint.Registry, certs []*seeds.Seed, n int) []*seeds.Seed {
-	type vec map[string]bool
-	vs := make([]vec, len(certs))
-	for i, sd := range certs {
-		vs[i] = vec{}
-		o, err := zl.Parse(sd.Kind, sd.DER)
-		if err != nil {
-			continue
-		}
-		rs, p := zl.Lint(o, reg)
-		if p != nil || rs == nil {
-			continue
-		}
-		for name, r := range rs.Results {
-			if r != nil {
-				vs[i][name+"|"+r.Status.String()] = true
-			}
-		}
-	}
-	seen := vec{}
-	var out []*seeds.Seed
-	used := map[int]bool{}
-	for len(out) < n {
-		best, bestNew := -1, -1
-		for i := range certs {
-			if used[i] {
-				continue
-			}
-			k := 0
-			for p := range vs[i] {
-				if !seen[p] {
-					k++
-				}
-			}
-			if k > bestNew {
-				best, bestNew = i, k
-			}
-		}
-		if best < 0 {
-			break
-		}
-		used[best] = true
-		for p := range vs[best] {
-			seen[p] = true
-		}
-		out = append(out, certs[best])
-	}
-	for len(out) < n {
-		out = append(out, certs[len(out)%len(certs)])
-	}
-	return out
-}
-
 func checkC10(ctx *core.Ctx, rep *core.Report) {
 	reg, rdesc, err := c10Registry(ctx)
 	if err != nil {
